@@ -9,6 +9,8 @@
 package upstream
 
 import (
+	"io"
+	"github.com/andydunstall/yamux"
 	"encoding/hex"
 	"encoding/json"
 	"fmt"
@@ -159,6 +161,16 @@ type vhupRig struct {
 	localID string
 	mu      sync.Mutex
 	fakes   map[string]*vhupFake
+	// real upstreams (sequential histories): a ConnUpstream over a real yamux session on an in-memory pipe, as the
+	// upstream server registers them; "sever" closes the session without telling the manager
+	reals map[string]*vhupReal
+	uidOf map[Upstream]int
+}
+
+type vhupReal struct {
+	uid            int
+	up             *ConnUpstream
+	client, server *yamux.Session
 }
 
 func vhupNewRig(c vhupCase) *vhupRig {
@@ -180,10 +192,57 @@ func vhupNewRig(c vhupCase) *vhupRig {
 		mgr:     NewLoadBalancedManager(cs, nil),
 		localID: id,
 		fakes:   make(map[string]*vhupFake),
+		reals:   make(map[string]*vhupReal),
+		uidOf:   make(map[Upstream]int),
 	}
 }
 
-func (r *vhupRig) close() { _ = r.gsp.Close() }
+// real returns the real upstream (uid, ep), creating its session on first use
+func (r *vhupRig) real(uid int, ep string) Upstream {
+	r.mu.Lock()
+	defer r.mu.Unlock()
+	key := fmt.Sprintf("%d/%s", uid, ep)
+	if x, ok := r.reals[key]; ok {
+		return x.up
+	}
+	a, b := net.Pipe()
+	cfg := yamux.DefaultConfig()
+	cfg.LogOutput = io.Discard
+	cfg.EnableKeepAlive = false
+	cl, err := yamux.Client(a, cfg)
+	if err != nil {
+		panic(err)
+	}
+	cfg2 := yamux.DefaultConfig()
+	cfg2.LogOutput = io.Discard
+	cfg2.EnableKeepAlive = false
+	sv, err := yamux.Server(b, cfg2)
+	if err != nil {
+		panic(err)
+	}
+	x := &vhupReal{uid: uid, client: cl, server: sv, up: NewConnUpstream(ep, sv)}
+	r.reals[key] = x
+	r.uidOf[x.up] = uid
+	return x.up
+}
+
+func (r *vhupRig) sever(uid int, ep string) {
+	r.mu.Lock()
+	x, ok := r.reals[fmt.Sprintf("%d/%s", uid, ep)]
+	r.mu.Unlock()
+	if ok {
+		_ = x.client.Close()
+		_ = x.server.Close()
+	}
+}
+
+func (r *vhupRig) close() {
+	_ = r.gsp.Close()
+	for _, x := range r.reals {
+		_ = x.client.Close()
+		_ = x.server.Close()
+	}
+}
 
 func (r *vhupRig) fake(uid int, ep string) *vhupFake {
 	r.mu.Lock()
@@ -224,6 +283,8 @@ func (r *vhupRig) observe() vhupObs {
 		for _, u := range lb.upstreams {
 			if f, ok := u.(*vhupFake); ok {
 				b.Ups = append(b.Ups, f.uid)
+			} else if id, ok := r.uidOf[u]; ok {
+				b.Ups = append(b.Ups, id)
 			} else {
 				b.Ups = append(b.Ups, -1)
 			}
@@ -252,6 +313,17 @@ func (r *vhupRig) sel(e string, allow bool) vhupSel {
 			return vhupSel{Kind: "nil"}
 		}
 		return vhupSel{Kind: "local", U: x.uid, SelEp: vhupHex(x.EndpointID()), Fwd: x.Forward()}
+	case *ConnUpstream:
+		if x == nil {
+			return vhupSel{Kind: "nil"}
+		}
+		r.mu.Lock()
+		id, known := r.uidOf[x]
+		r.mu.Unlock()
+		if !known {
+			return vhupSel{Kind: "foreign"}
+		}
+		return vhupSel{Kind: "local", U: id, SelEp: vhupHex(x.EndpointID()), Fwd: x.Forward()}
 	case *NodeUpstream:
 		if x == nil || x.node == nil {
 			return vhupSel{Kind: "nil"}
@@ -264,9 +336,11 @@ func (r *vhupRig) sel(e string, allow bool) vhupSel {
 func (r *vhupRig) apply(op vhupOp) vhupSel {
 	switch op.Op {
 	case "add":
-		r.mgr.AddConn(r.fake(op.U, vhupUnhex(op.E)))
+		r.mgr.AddConn(r.real(op.U, vhupUnhex(op.E)))
 	case "remove":
-		r.mgr.RemoveConn(r.fake(op.U, vhupUnhex(op.E)))
+		r.mgr.RemoveConn(r.real(op.U, vhupUnhex(op.E)))
+	case "sever":
+		r.sever(op.U, vhupUnhex(op.E))
 	case "select":
 		return r.sel(vhupUnhex(op.E), op.Allow)
 	case "addnode":
